@@ -16,6 +16,10 @@ func (*List) Matches(_ *MethodContext, source, target *xtype.Type) bool {
 // Build creates conversion source code for the given source and target type.
 func (l *List) Build(gen Generator, ctx *MethodContext, sourceID *xtype.JenID, source, target *xtype.Type, path ErrorPath) ([]jen.Code, *xtype.JenID, *Error) {
 	ctx.SetErrorTargetVar(jen.Nil())
+	if !source.ListFixed {
+		// like maps: the target variable may come from goverter:default
+		return BuildByAssign(l, gen, ctx, sourceID, source, target, path)
+	}
 	targetSlice := ctx.Name(target.ID())
 
 	stmt, err := l.Assign(gen, ctx, AssignOf(jen.Id(targetSlice)), sourceID, source, target, path)
